@@ -149,6 +149,38 @@ def through_config(_):
         c2 = copy.deepcopy(cfg)
         if str(c2['p']) != 'prea-val/{UNDEF}/b-val' or repr(c2['p']) != "'pre{A}/{UNDEF}/{B}'":
             bad.append(('copy:config', f'after deepcopy(config) the value is {str(c2["p"])!r} with representation {c2["p"]!r}'))
+        # a `uses` entry given as a Config object (re-prepared by the chain with the chain's context)
+        used_obj = Config(root / 'data', name='usedobj', data={'tasks': [], 'r': '{A}:r'}, namespace='uo', global_vars=gv)
+        top = Config(root / 'data', name='top', data={'uses': [used_obj], 'tasks': []}, global_vars=gv,
+                     context={'for_namespaces': {'uo': {'r2': '{B}:ctx'}}, 'r3': '{A}{B}'})
+        ch2 = top.chain()
+        uo = [c for c in ch2._configs.values() if c.namespace == 'uo'][0]
+        for what, got, val, rep in (('value of a used Config object', uo['r'], 'a-val:r', "'{A}:r'"),
+                                    ('context value merged into a used Config object', uo['r2'], 'b-val:ctx', "'{B}:ctx'"),
+                                    ('global context value in a used Config object', uo['r3'], 'a-valb-val', "'{A}{B}'")):
+            if str(got) != val or repr(got) != rep:
+                bad.append((f'config:{what}', f'{what}: got {str(got)!r} with representation {got!r}, expected {val!r} / {rep}'))
+        # contexts nested two levels deep, every `uses` path with a placeholder
+        (root / 'c3.json').write_text(json.dumps({'deep': '{B}-deep'}))
+        (root / 'c2.json').write_text(json.dumps({'mid': '{A}-mid', 'uses': ['{ROOT}/c3.json as m']}))
+        (root / 'c1.json').write_text(json.dumps({'topc': 1, 'uses': ['{ROOT}/c2.json as n']}))
+        gv2 = dict(gv, ROOT=str(root))
+        (root / 'plain2.json').write_text(json.dumps({'tasks': []}))
+        (root / 'plain.json').write_text(json.dumps({'tasks': [], 'uses': [f'{root}/plain2.json as m']}))
+        try:
+            cn = Config(root / 'data', name='nested', data={'tasks': [], 'uses': [f'{root}/plain.json as n', ]},
+                        global_vars=gv2, context=str(root / 'c1.json'))
+            chn = cn.chain()
+            cfgn = [c for c in chn._configs.values() if c.namespace == 'n'][0]
+            if str(cfgn.get('mid')) != 'a-val-mid':
+                bad.append(('config:nested-context', f"value from a context used `as n`: {cfgn.get('mid')!r}, expected 'a-val-mid'"))
+            cfgnm = [c for c in chn._configs.values() if c.namespace == 'n::m'][0]
+            if str(cfgnm.get('deep')) != 'b-val-deep':
+                bad.append(('config:nested-context', f"value from a context used two levels deep (`... as n` using `... as m`) "
+                                                     f"seen by the config mounted at n::m: {cfgnm.get('deep')!r}, expected 'b-val-deep'"))
+        except Exception as e:  # noqa
+            bad.append(('config:nested-context', f'contexts nested two levels with placeholders in their `uses` paths failed: '
+                                                 f'{type(e).__name__}: {e}'))
         # the same config under other global_vars: same persistence key, other value
         cfg_b = Config(root / 'data', main, global_vars={**gv, 'A': 'other'})
         if cfg_b.chain()['p'].name_for_persistence != t.name_for_persistence:
